@@ -24,6 +24,7 @@
 -/
 import MdIt.Model.Block
 import MdIt.Props.C10
+import MdIt.Props.C04
 
 namespace MdIt.Block
 open MdIt.Lines (LineOffset)
@@ -476,30 +477,39 @@ structure Advanced (s s' : BState) : Prop where
   lt : s.line < s'.line
   le : TableOk s → s'.line ≤ s.lineMax
 
+/-- the same with an unconditional upper bound (the six rules that neither nest nor count lines) -/
+structure Advanced' (s s' : BState) : Prop where
+  frame : Frame s s'
+  lt : s.line < s'.line
+  le : s'.line ≤ s.lineMax
+
+theorem Advanced'.weaken {s s' : BState} (h : Advanced' s s') : Advanced s s' :=
+  ⟨h.frame, h.lt, fun _ => h.le⟩
+
 /-! ## 6. progress of the nine rules -/
 
 theorem hr_advanced {s s' : BState} (h : hrRule s false = .ok (true, s')) (hl : s.line < s.lineMax) :
-    Advanced s s' := by
+    Advanced' s s' := by
   unfold hrRule at h
   crack h
-  refine ⟨⟨rfl, rfl, rfl, rfl, rfl, rfl, rfl⟩, ?_, fun _ => ?_⟩ <;> simp [BState.push] <;> omega
+  refine ⟨⟨rfl, rfl, rfl, rfl, rfl, rfl, rfl⟩, ?_, ?_⟩ <;> simp [BState.push] <;> omega
 
 theorem heading_advanced {s s' : BState} (h : headingRule s false = .ok (true, s'))
-    (hl : s.line < s.lineMax) : Advanced s s' := by
+    (hl : s.line < s.lineMax) : Advanced' s s' := by
   unfold headingRule at h
   crack h
-  refine ⟨⟨rfl, rfl, rfl, rfl, rfl, rfl, rfl⟩, ?_, fun _ => ?_⟩ <;> simp [BState.push] <;> omega
+  refine ⟨⟨rfl, rfl, rfl, rfl, rfl, rfl, rfl⟩, ?_, ?_⟩ <;> simp [BState.push] <;> omega
 
 theorem codeScan_spec (s : BState) (n last r : Nat) (h : codeScan s n last = .ok r) (hn : last ≤ n) :
     last ≤ r ∧ (last ≤ s.lineMax → r ≤ s.lineMax) := by
   fun_induction codeScan s n last <;> simp_all <;> omega
 
 theorem code_advanced {s s' : BState} (h : codeRule s false = .ok (true, s')) (hl : s.line < s.lineMax) :
-    Advanced s s' := by
+    Advanced' s s' := by
   unfold codeRule at h
   crack h
   have := codeScan_spec _ _ _ _ ‹codeScan _ _ _ = _› (Nat.le_refl _)
-  refine ⟨⟨rfl, rfl, rfl, rfl, rfl, rfl, rfl⟩, ?_, fun _ => ?_⟩ <;> simp [BState.push] <;> omega
+  refine ⟨⟨rfl, rfl, rfl, rfl, rfl, rfl, rfl⟩, ?_, ?_⟩ <;> simp [BState.push] <;> omega
 
 theorem fenceScan_spec (s : BState) (marker : Char) (len n : Nat) (a : Nat) (b : Bool)
     (h : fenceScan s marker len n = .ok (a, b)) (hn : n < s.lineMax) :
@@ -507,28 +517,28 @@ theorem fenceScan_spec (s : BState) (marker : Char) (len n : Nat) (a : Nat) (b :
   fun_induction fenceScan s marker len n <;> simp_all <;> omega
 
 theorem fence_advanced {s s' : BState} (h : fenceRule s false = .ok (true, s')) (hl : s.line < s.lineMax) :
-    Advanced s s' := by
+    Advanced' s s' := by
   unfold fenceRule at h
   crack h
   have := fenceScan_spec _ _ _ _ _ _ ‹fenceScan _ _ _ _ = _› hl
-  refine ⟨⟨rfl, rfl, rfl, rfl, rfl, rfl, rfl⟩, ?_, fun _ => ?_⟩ <;> simp [BState.push] <;> split <;> simp_all <;> omega
+  refine ⟨⟨rfl, rfl, rfl, rfl, rfl, rfl, rfl⟩, ?_, ?_⟩ <;> simp [BState.push] <;> split <;> simp_all <;> omega
 
 theorem paragraph_advanced {test : Test} (ht : TestPure test) {fuel : Nat} {s s' : BState}
     (h : paragraphRule test fuel s false = .ok (true, s')) (hl : s.line < s.lineMax) :
-    Advanced s s' := by
+    Advanced' s s' := by
   unfold paragraphRule at h
   crack h
   obtain ⟨h1, h2, h3, _⟩ := lazyScan_spec ht false _ _ _ _ ‹lazyScan _ _ _ _ _ = _›
-  refine ⟨⟨?_, ?_, ?_, ?_, ?_, ?_, ?_⟩, ?_, fun _ => ?_⟩ <;> simp [BState.push, h1] <;> omega
+  refine ⟨⟨?_, ?_, ?_, ?_, ?_, ?_, ?_⟩, ?_, ?_⟩ <;> simp [BState.push, h1] <;> omega
 
 theorem lheading_advanced {test : Test} (ht : TestPure test) {fuel : Nat} {s s' : BState}
     (h : lheadingRule test fuel s false = .ok (true, s')) (hl : s.line < s.lineMax) :
-    Advanced s s' := by
+    Advanced' s s' := by
   unfold lheadingRule at h
   crack h
   obtain ⟨h1, h2, h3, h4⟩ := lazyScan_spec ht true _ _ _ _ ‹lazyScan _ _ _ _ _ = _›
   have := h4 ‹_›
-  refine ⟨⟨?_, ?_, ?_, ?_, ?_, ?_, ?_⟩, ?_, fun _ => ?_⟩ <;> simp [BState.push, h1] <;> omega
+  refine ⟨⟨?_, ?_, ?_, ?_, ?_, ?_, ?_⟩, ?_, ?_⟩ <;> simp [BState.push, h1] <;> omega
 
 /-- the reference rule: frame and strict progress (the upper bound needs the table invariant:
     `reference_advanced`) -/
@@ -898,5 +908,588 @@ theorem list_advanced {tok : Tok} {test : Test} (hk : TokSpec tok) (ht : TestPur
     · intro hT
       simp [h1]
       exact h3 (fun k o ho => hT k o ho))
+
+/-! ### reference: `state.line = start_line + lines + 1` stays within the lines read -/
+
+/-- number of line feeds -/
+def nl (l : List Char) : Nat := l.count '\n'
+
+@[simp] theorem nl_nil : nl [] = 0 := rfl
+@[simp] theorem nl_append (a b : List Char) : nl (a ++ b) = nl a + nl b := by simp [nl]
+theorem nl_cons (c : Char) (r : List Char) : nl (c :: r) = (if c = '\n' then 1 else 0) + nl r := by
+  simp only [nl, List.count_cons]
+  by_cases h : c = '\n' <;> simp [h] <;> omega
+
+/-- of two prefixes of a text the one that is shorter in bytes is a prefix of the other -/
+theorem prefix_of_le : ∀ (p p' q q' : List Char), p ++ q = p' ++ q' →
+    Link.byteLen p ≤ Link.byteLen p' → ∃ u, p' = p ++ u := by
+  intro p
+  induction p with
+  | nil => intro p' _ _ _ _; exact ⟨p', rfl⟩
+  | cons c t ih =>
+    intro p' q q' h hl
+    cases p' with
+    | nil => have := Link.clen_pos c; simp [Link.byteLen] at hl; omega
+    | cons c' t' =>
+      simp only [List.cons_append, List.cons.injEq] at h
+      obtain ⟨rfl, h⟩ := h
+      obtain ⟨u, hu⟩ := ih t' q q' h (by simp [Link.byteLen] at hl; omega)
+      exact ⟨u, by simp [hu]⟩
+
+/-- "`l` line feeds have been counted, all of them before byte `p` of `str`" -/
+def Pref (str : List Char) (p l : Nat) : Prop :=
+  ∃ pre suf, str = pre ++ suf ∧ Link.byteLen pre = p ∧ l ≤ nl pre
+
+theorem Pref.le_total {str : List Char} {p l : Nat} (h : Pref str p l) : l ≤ nl str := by
+  obtain ⟨pre, suf, rfl, _, hl⟩ := h
+  simp; omega
+
+/-- moving the position forward to another boundary keeps the count valid -/
+theorem Pref.forward {str : List Char} {p l p' : Nat} (h : Pref str p l) (hp : p ≤ p')
+    (hb : Link.Boundary str p') : Pref str p' l := by
+  obtain ⟨pre, suf, rfl, hpl, hl⟩ := h
+  obtain ⟨pre', post', hs, hpl'⟩ := hb
+  obtain ⟨u, rfl⟩ := prefix_of_le pre pre' suf post' hs (by omega)
+  exact ⟨pre ++ u, post', hs, hpl', by simp; omega⟩
+
+/-- counting the line feeds of a slice that starts at the position -/
+theorem Pref.slice {str : List Char} {p l p' : Nat} {mid : List Char} (h : Pref str p l)
+    (hs : Link.slice str p p' = .ok mid) : Pref str p' (l + nl mid) := by
+  obtain ⟨pre, suf, hstr, hpl, hl⟩ := h
+  obtain ⟨pre', post, hstr', ha, hb⟩ := (Link.slice_ok_iff _ _ _ _).1 hs
+  have h1 : pre ++ suf = pre' ++ (mid ++ post) := by rw [← hstr, hstr']; simp
+  obtain ⟨u, hu⟩ := prefix_of_le pre pre' suf (mid ++ post) h1 (by omega)
+  have hu0 : u = [] := by
+    have := congrArg Link.byteLen hu
+    simp [Link.byteLen_append] at this
+    cases u with
+    | nil => rfl
+    | cons c r => have := Link.clen_pos c; simp [Link.byteLen] at *; omega
+  subst hu0
+  simp at hu
+  subst hu
+  exact ⟨pre' ++ mid, post, by rw [hstr'], by simp [Link.byteLen_append]; omega, by simp; omega⟩
+
+theorem clen_nl' : Link.clen '\n' = 1 := by decide
+theorem clen_sp : Link.clen ' ' = 1 := by decide
+theorem clen_tab : Link.clen '\t' = 1 := by decide
+theorem clen_bs' : Link.clen '\\' = 1 := by decide
+theorem clen_rb : Link.clen ']' = 1 := by decide
+theorem clen_colon : Link.clen ':' = 1 := by decide
+
+theorem labelScan_pref (str : List Char) :
+    ∀ (rest : List Char) (esc : Bool) (pos lines le l' : Nat) (rest' : List Char),
+      labelScan esc rest pos lines = some (le, l', rest') →
+      ∀ pre, str = pre ++ rest → Link.byteLen pre = pos → lines ≤ nl pre →
+        ∃ pre', str = pre' ++ ']' :: rest' ∧ Link.byteLen pre' = le ∧ l' ≤ nl pre' := by
+  intro rest
+  induction rest with
+  | nil => intro esc pos lines le l' rest' h; simp [labelScan] at h
+  | cons c r ih =>
+    intro esc pos lines le l' rest' h pre hstr hp hl
+    have step : ∀ esc' lines', lines' ≤ lines + (if c = '\n' then 1 else 0) →
+        labelScan esc' r (pos + Link.clen c) lines' = some (le, l', rest') →
+        ∃ pre', str = pre' ++ ']' :: rest' ∧ Link.byteLen pre' = le ∧ l' ≤ nl pre' := by
+      intro esc' lines' hle h'
+      exact ih _ _ _ _ _ _ h' (pre ++ [c]) (by simp [hstr])
+        (by simp [Link.byteLen_append, Link.byteLen]; omega) (by simp [nl_cons]; omega)
+    simp only [labelScan] at h
+    split at h
+    · exact step _ _ (by split <;> omega) h
+    · split at h
+      · cases h
+      · split at h
+        · rename_i hc
+          simp at h
+          obtain ⟨rfl, rfl, rfl⟩ := h
+          subst hc
+          exact ⟨pre, hstr, hp, hl⟩
+        · split at h
+          · rename_i hc
+            subst hc
+            exact step false (lines + 1) (by simp) (by simpa [clen_nl'] using h)
+          · split at h
+            · rename_i hc
+              subst hc
+              exact step true lines (by omega) (by simpa [clen_bs'] using h)
+            · exact step false lines (by omega) h
+
+theorem wsScan_pref (str : List Char) :
+    ∀ (rest : List Char) (pos lines pos' l' : Nat), wsScan rest pos lines = (pos', l') →
+      ∀ pre post, str = pre ++ rest ++ post → Link.byteLen pre = pos → lines ≤ nl pre →
+        pos ≤ pos' ∧ Pref str pos' l' := by
+  intro rest
+  induction rest with
+  | nil =>
+    intro pos lines pos' l' h pre post hstr hp hl
+    simp [wsScan] at h
+    obtain ⟨rfl, rfl⟩ := h
+    exact ⟨Nat.le_refl _, pre, post, by simpa using hstr, hp, hl⟩
+  | cons c r ih =>
+    intro pos lines pos' l' h pre post hstr hp hl
+    simp only [wsScan] at h
+    split at h
+    · rename_i hc
+      have hcl : Link.clen c = 1 := by rcases hc with rfl | rfl <;> decide
+      have hnl : c ≠ '\n' := by rcases hc with rfl | rfl <;> decide
+      obtain ⟨h1, h2⟩ := ih _ _ _ _ h (pre ++ [c]) post (by simp [hstr])
+        (by simp [Link.byteLen_append, Link.byteLen, hcl]; omega) (by simp [nl_cons, hnl]; omega)
+      exact ⟨by omega, h2⟩
+    · split at h
+      · rename_i hc
+        subst hc
+        obtain ⟨h1, h2⟩ := ih _ _ _ _ h (pre ++ ['\n']) post (by simp [hstr])
+          (by simp [Link.byteLen_append, Link.byteLen, clen_nl']; omega) (by simp [nl_cons]; omega)
+        exact ⟨by omega, h2⟩
+      · simp at h
+        obtain ⟨rfl, rfl⟩ := h
+        exact ⟨Nat.le_refl _, pre, c :: r ++ post, by simpa using hstr, hp, hl⟩
+
+theorem liftK_ok {α : Type} {x : Except Link.Panic α} {a : α} (h : liftK x = .ok a) : x = .ok a := by
+  cases x with
+  | error e => cases e; simp [liftK] at h
+  | ok v => simp [liftK] at h; rw [h]
+
+theorem Pref.weaken {str : List Char} {p l l' : Nat} (h : Pref str p l) (hl : l' ≤ l) : Pref str p l' := by
+  obtain ⟨pre, suf, h1, h2, h3⟩ := h
+  exact ⟨pre, suf, h1, h2, by omega⟩
+
+/-- the count is below the line feeds of THE prefix that ends at the position -/
+theorem Pref.at {str : List Char} {p l : Nat} (h : Pref str p l) {pre suf : List Char}
+    (hs : str = pre ++ suf) (hp : Link.byteLen pre = p) : l ≤ nl pre := by
+  obtain ⟨pre', suf', hs', hp', hl⟩ := h
+  obtain ⟨u, hu⟩ := prefix_of_le pre' pre suf' suf (by rw [← hs', hs]) (by omega)
+  subst hu
+  simp; omega
+
+theorem refTitle_pref {cfg : Cfg} {str : List Char} {start pos lines dp dl : Nat}
+    {r : Option (List Char) × Nat × Nat}
+    (h : refTitle cfg str (Link.byteLen str) start pos lines dp dl = .ok r)
+    (h1 : Pref str pos lines) (h2 : Pref str dp dl) : Pref str r.2.1 r.2.2 := by
+  unfold refTitle at h
+  crack h
+  · rename_i res ht
+    obtain ⟨o, m, suf, _, _, _, htoks, hsl, _, _⟩ := Link.title_delims _ _ _ _ (liftK_ok ht)
+    have := h1.slice hsl
+    refine this.weaken ?_
+    rw [htoks.lines_eq]
+    simp [nl, List.count_cons, List.count_append]
+    omega
+  · exact h2
+  · exact h1
+
+theorem refTrail_lines {str : List Char} {len : Nat} {title t' : Option (List Char)} {pos lines dp dl l' : Nat}
+    (h : refTrail str len title pos lines dp dl = .ok (some (t', l'))) : l' = lines ∨ l' = dl := by
+  unfold refTrail at h
+  crack h
+  all_goals simp_all
+
+theorem refParse_lines {cfg : Cfg} {str : List Char} {raw href : List Nat} {title : Option (List Nat)}
+    {lines : Nat} (h : refParse cfg str = .ok (some (raw, href, title, lines))) : lines ≤ nl str := by
+  unfold refParse at h
+  crack h
+  rename_i le l1 _ tail hlabel _ res hdest _ _ w2 hsl2 rt htitle _ _ _ _ htrail
+  cases str with
+  | nil => simp [labelScan] at hlabel
+  | cons c0 t =>
+    simp only [List.tail_cons] at hlabel
+    obtain ⟨pre1, hstr1, hp1, hl1⟩ := labelScan_pref (c0 :: t) _ _ _ _ _ _ _ hlabel [c0] rfl
+      (by simp [Link.byteLen]) (by omega)
+    generalize hws1 : wsScan tail (le + 2) l1 = r1 at *
+    obtain ⟨p2, l2⟩ := r1
+    obtain ⟨hp2, hpref2⟩ := wsScan_pref (c0 :: t) _ _ _ _ _ hws1 (pre1 ++ [']', ':']) []
+      (by simp [hstr1]) (by simp [Link.byteLen_append, Link.byteLen, clen_rb, clen_colon]; omega)
+      (by simp; omega)
+    simp only at hdest hsl2 htitle htrail
+    have hdest := liftK_ok hdest
+    obtain ⟨hge, _, hbd⟩ := Link.dest_pos_bounds _ _ _ _ hdest
+    have hl0 := (Link.dest_spec _ _ _ _ hdest).1
+    have hprefD : Pref (c0 :: t) res.pos (l2 + res.lines) := by
+      rw [hl0]; exact hpref2.forward hge hbd
+    obtain ⟨preD, postD, hstrD, hpD, hlenD⟩ := (Link.slice_ok_iff _ _ _ _).1 (liftK_ok hsl2)
+    generalize hws2 : wsScan w2 res.pos (l2 + res.lines) = r2 at *
+    obtain ⟨p3, l3⟩ := r2
+    obtain ⟨_, hpref3⟩ := wsScan_pref (c0 :: t) _ _ _ _ _ hws2 preD postD hstrD hpD
+      (hprefD.at (suf := w2 ++ postD) (by rw [hstrD]; simp) hpD)
+    have hpref4 := refTitle_pref htitle hpref3 hprefD
+    rcases refTrail_lines htrail with h | h
+    · rw [h]; exact hpref4.le_total
+    · rw [h]; exact hprefD.le_total
+
+theorem nl_eq_zero {l : List Char} (h : '\n' ∉ l) : nl l = 0 := by
+  simp [nl, List.count_eq_zero, h]
+
+theorem nl_trimStr (x : List Char) : nl (trimStr x) ≤ nl x := by
+  unfold trimStr nl
+  rw [List.count_reverse]
+  refine Nat.le_trans ((List.dropWhile_sublist _).count_le _) ?_
+  rw [List.count_reverse]
+  exact (List.dropWhile_sublist _).count_le _
+
+theorem nl_joinLines_false : ∀ (ps : List (List Char)), (∀ p ∈ ps, '\n' ∉ p) →
+    nl (Lines.joinLines false ps) = ps.length - 1
+  | [], _ => by simp [Lines.joinLines]
+  | [x], h => by simp [Lines.joinLines, nl_eq_zero (h x (by simp))]
+  | x :: y :: r, h => by
+    have ih := nl_joinLines_false (y :: r) (fun p hp => h p (List.mem_cons_of_mem _ hp))
+    simp only [Lines.joinLines, nl_append, nl_cons, if_true, ih, nl_eq_zero (h x (by simp))]
+    simp
+    omega
+
+theorem shows_of_lineOk {src : List Char} {o : LineOffset} (h : LineOk src o) :
+    ∃ v : List Char × List Char × Int, Lines.Shows src o v ∧ '\n' ∉ v.1 ∧ '\n' ∉ v.2.1 := by
+  obtain ⟨p, a, b, q, hsrc, hp, hfn, hle, ha, hb⟩ := h
+  refine ⟨(a, b, o.indentNonspace), ⟨?_, ?_, rfl⟩, ha, hb⟩
+  · exact Lines.slice_eq_ok_iff.mpr ⟨p, b ++ q, by rw [hsrc]; simp, hp, by simp only; omega⟩
+  · exact Lines.slice_eq_ok_iff.mpr ⟨p ++ a, q, by rw [hsrc], by simp; omega, by simp only; omega⟩
+
+theorem views_of_tableOk {src : List Char} {offs : List LineOffset}
+    (hT : ∀ (k : Nat) (o : LineOffset), offs[k]? = some o → LineOk src o) :
+    ∀ (n b : Nat), b + n ≤ offs.length →
+      ∃ vs : List (List Char × List Char × Int), vs.length = n ∧
+        (∀ j (h : j < vs.length), ∃ o, offs[b + j]? = some o ∧ Lines.Shows src o vs[j]) ∧
+        ∀ v ∈ vs, '\n' ∉ v.1 ∧ '\n' ∉ v.2.1 := by
+  intro n
+  induction n with
+  | zero => intro b _; exact ⟨[], rfl, fun j h => by simp at h, by simp⟩
+  | succ n ih =>
+    intro b hb
+    have hk : b < offs.length := by omega
+    obtain ⟨v, hv, hv1, hv2⟩ := shows_of_lineOk (hT b offs[b] (List.getElem?_eq_getElem hk))
+    obtain ⟨vs, hvl, hvs, hnl⟩ := ih (b + 1) (by omega)
+    refine ⟨v :: vs, by simp [hvl], ?_, ?_⟩
+    · intro j hj
+      cases j with
+      | zero => exact ⟨offs[b], by simp, hv⟩
+      | succ j =>
+        obtain ⟨o, ho, hs⟩ := hvs j (by simp at hj; omega)
+        exact ⟨o, by rw [← ho]; congr 1; omega, by simpa using hs⟩
+    · intro w hw
+      simp at hw
+      rcases hw with rfl | hw
+      · exact ⟨hv1, hv2⟩
+      · exact hnl w hw
+
+/-- on a table that satisfies the invariant, `get_lines(begin, end, _, false)` contains exactly
+    `end - begin - 1` line feeds (the joining ones) -/
+theorem getLines_nl {s : BState} (hT : TableOk s) {b e indent : Nat} {c : List Char} {m : List (Nat × Nat)}
+    (h : s.getLines b e indent false = .ok (c, m)) : nl c = e - b - 1 := by
+  have h' : Lines.getLines s.src s.offs b e indent false = .ok (c, m) := by
+    unfold BState.getLines at h
+    cases hx : Lines.getLines s.src s.offs b e indent false with
+    | error er => rw [hx] at h; cases er <;> simp [liftL] at h
+    | ok v => rw [hx] at h; simp [liftL] at h; rw [h]
+  have hbe : b ≤ e := by
+    unfold Lines.getLines at h'
+    split at h'
+    · cases h'
+    · omega
+  by_cases hlt : b < e
+  · have hlen : e ≤ s.offs.length := by
+      unfold Lines.getLines at h'
+      rw [if_neg (by omega)] at h'
+      exact Lines.getLinesGo_ok_len h' hlt
+    obtain ⟨vs, hvl, hvs, hnl⟩ := views_of_tableOk hT (e - b) b (by omega)
+    obtain ⟨m', hm'⟩ := Lines.get_lines_lf s.src s.offs b indent false vs hvs
+    rw [hvl, show b + (e - b) = e by omega, h'] at hm'
+    simp only [Except.ok.injEq, Prod.mk.injEq] at hm'
+    rw [hm'.1, nl_joinLines_false]
+    · simp [hvl]
+    · intro p hp
+      obtain ⟨v, hv, rfl⟩ := List.mem_map.mp hp
+      intro hc
+      rcases Lines.mem_viewPiece hc with h | h | h
+      · cases h
+      · exact (hnl v hv).1 h
+      · exact (hnl v hv).2 h
+  · have : b = e := by omega
+    subst this
+    unfold Lines.getLines at h'
+    rw [if_neg (by omega), Lines.getLinesGo, if_neg (by omega)] at h'
+    cases h'
+    simp
+
+theorem reference_advanced {cfg : Cfg} {test : Test} (ht : TestPure test) {fuel : Nat} {s s' : BState}
+    (h : referenceRule cfg test fuel s false = .ok (true, s')) (hl : s.line < s.lineMax) :
+    Advanced s s' := by
+  obtain ⟨hfr, hlt⟩ := reference_frame_lt ht h
+  refine ⟨hfr, hlt, fun hT => ?_⟩
+  unfold referenceRule at h
+  crack h
+  have hscan := ‹lazyScan _ _ _ _ _ = _›
+  have hgl := ‹BState.getLines _ _ _ _ _ = _›
+  have hparse := ‹refParse _ _ = _›
+  obtain ⟨h1, h2, h3, _⟩ := lazyScan_spec ht false _ _ _ _ hscan
+  rw [h1] at hgl
+  have hn := getLines_nl hT hgl
+  have := refParse_lines hparse
+  have := nl_trimStr ‹List Char × List (Nat × Nat)›.1
+  have := h3 hl
+  simp
+  omega
+/-! ## 7. the tokenizer -/
+
+theorem skipEmpty_spec (offs : List LineOffset) (lineMax line : Nat) :
+    line ≤ Lines.skipEmptyLines offs lineMax line ∧
+    (line ≤ lineMax → Lines.skipEmptyLines offs lineMax line ≤ lineMax) ∧
+    (Lines.isEmpty offs line = false → Lines.skipEmptyLines offs lineMax line = line) ∧
+    (Lines.isEmpty offs line = true → line ≠ lineMax → line < Lines.skipEmptyLines offs lineMax line) := by
+  fun_induction Lines.skipEmptyLines offs lineMax line with
+  | case1 line h ih =>
+    refine ⟨by omega, fun _ => ih.2.1 (by omega), fun hf => by simp [h.2] at hf, fun _ _ => by omega⟩
+  | case2 line h =>
+    refine ⟨Nat.le_refl _, fun h => h, fun _ => rfl, fun he hne => absurd ⟨hne, he⟩ h⟩
+
+/-- what the tokenizer needs of the chain it runs -/
+structure RunSpec (run : RuleId → BState → Bool → Res) : Prop where
+  false_same : ∀ r s s', run r s false = .ok (false, s') → s' = s
+  advanced : ∀ r s s', run r s false = .ok (true, s') → s.line < s.lineMax → IndentOk s → Advanced s s'
+
+theorem runChain_real {run : RuleId → BState → Bool → Res} (hr : RunSpec run) :
+    ∀ (chain : List RuleId) (s : BState) (b : Bool) (s' : BState),
+      runChain run chain s false = .ok (b, s') →
+      (b = false → s' = s) ∧ (b = true → s.line < s.lineMax → IndentOk s → Advanced s s') := by
+  intro chain
+  induction chain with
+  | nil => intro s b s' h; simp [runChain] at h; simp [h.1, h.2]
+  | cons r rs ih =>
+    intro s b s' h
+    simp only [runChain] at h
+    split at h
+    · cases h
+    · rename_i s1 h1
+      cases h
+      exact ⟨by simp, fun _ => hr.advanced _ _ _ h1⟩
+    · rename_i s1 h1
+      have := hr.false_same _ _ _ h1
+      subst this
+      exact ih _ _ _ h
+
+theorem afterChain_spec {ok : Bool} {s s' : BState} {prev : Nat} (h : afterChain ok s prev = .ok s') :
+    Frame s s' ∧ (ok = true → s' = s ∧ prev < s.line) ∧ (ok = false → s'.line = s.line + 1) := by
+  unfold afterChain at h
+  crack h
+  · exact ⟨Frame.refl _, fun _ => ⟨rfl, by assumption⟩, by simp_all⟩
+  · exact ⟨⟨rfl, rfl, rfl, rfl, rfl, rfl, rfl⟩, by simp_all, fun _ => by simp [BState.push]⟩
+
+/-- the conclusion of `tokLoop_spec` / `tokenize_progress` -/
+structure TokPost (s s' : BState) : Prop where
+  frame : Frame s s'
+  mono : s.line ≤ s'.line
+  upper : TableOk s → s.line ≤ s.lineMax → s'.line ≤ s.lineMax
+  strict : s.line < s.lineMax → (s.isEmpty s.line = true ∨ IndentOk s) → s.line < s'.line
+
+/-- one iteration of the tokenizer loop in which the chain runs -/
+theorem tok_iter {run : RuleId → BState → Bool → Res} (hr : RunSpec run) {chain : List RuleId}
+    {s1 : BState} {w : Bool × BState} {s3 : BState} {prev : Nat} (hp : prev = s1.line)
+    (hlt : s1.line < s1.lineMax) (hi : IndentOk s1)
+    (hc : runChain run chain s1 false = .ok w) (ha : afterChain w.1 w.2 prev = .ok s3) :
+    Frame s1 s3 ∧ s1.line < s3.line ∧ (TableOk s1 → s3.line ≤ s1.lineMax) := by
+  subst hp
+  obtain ⟨b, s2⟩ := w
+  obtain ⟨h1, h2⟩ := runChain_real hr _ _ _ _ hc
+  obtain ⟨hf, h3, h4⟩ := afterChain_spec ha
+  cases b with
+  | true =>
+    obtain ⟨rfl, _⟩ := h3 rfl
+    have := h2 rfl hlt hi
+    exact ⟨this.frame, this.lt, this.le⟩
+  | false =>
+    have := h1 rfl
+    subst this
+    have := h4 rfl
+    exact ⟨hf, by simp at this; omega, fun _ => by simp at this; omega⟩
+
+theorem frame_line_tight (s : BState) (l : Nat) (t : Bool) : Frame s { s with line := l, tight := t } :=
+  ⟨rfl, rfl, rfl, rfl, rfl, rfl, rfl⟩
+
+/-- gluing: skip blank lines, one iteration, the optional blank line behind it, the rest of the loop -/
+theorem TokPost.glue {s s1 s3 s4 s' : BState} (h01 : Frame s s1) (hl1 : s.line ≤ s1.line)
+    (h13 : Frame s1 s3) (hlt : s1.line < s3.line) (hle : TableOk s1 → s3.line ≤ s1.lineMax)
+    (h34 : Frame s3 s4) (hl4 : s3.line ≤ s4.line) (hl4' : s3.line ≤ s3.lineMax → s4.line ≤ s3.lineMax)
+    (ih : TokPost s4 s') : TokPost s s' := by
+  have hf := (h01.trans h13).trans h34
+  refine ⟨hf.trans ih.frame, ?_, ?_, ?_⟩
+  · have := ih.mono; omega
+  · intro hT _
+    have h1 := hle (hT.of_frame h01)
+    have h2 := hl4' (by rw [h13.lineMax]; exact h1)
+    have := ih.upper (hT.of_frame hf) (by rw [h34.lineMax]; exact h2)
+    rw [hf.lineMax] at this
+    exact this
+  · intro _ _
+    have := ih.mono; omega
+
+theorem tokLoop_spec {cfg : Cfg} {run : RuleId → BState → Bool → Res} (hr : RunSpec run) :
+    ∀ (fuel : Nat) (he : Bool) (s s' : BState), tokLoop cfg run fuel he s = .ok s' → TokPost s s' := by
+  intro fuel
+  induction fuel with
+  | zero => intro he s s' h; simp [tokLoop] at h
+  | succ f ih =>
+    intro he s s' h
+    simp only [tokLoop] at h
+    obtain ⟨hs1, hs2, hs3, hs4⟩ := skipEmpty_spec s.offs s.lineMax s.line
+    generalize Lines.skipEmptyLines s.offs s.lineMax s.line = l' at h hs1 hs2 hs3 hs4
+    have hempty : ∀ hlt : s.line < s.lineMax, (s.isEmpty s.line = true ∨ IndentOk s) →
+        s.line < l' ∨ (l' = s.line ∧ IndentOk s) := by
+      intro hlt hc
+      by_cases he : Lines.isEmpty s.offs s.line = true
+      · exact .inl (hs4 he (by omega))
+      · simp only [Bool.not_eq_true] at he
+        rcases hc with hc | hc
+        · simp [BState.isEmpty, he] at hc
+        · exact .inr ⟨hs3 he, hc⟩
+    crack h
+    · subst_vars
+      exact ⟨Frame.refl _, Nat.le_refl _, fun _ h => h, fun h => absurd h ‹_›⟩
+    · subst_vars
+      exact ⟨frame_line_tight s l' s.tight, hs1, fun _ h => hs2 h, fun _ _ => by simp; omega⟩
+    · subst_vars
+      refine ⟨frame_line_tight s l' s.tight, hs1, fun _ h => hs2 h, fun hlt hc => ?_⟩
+      rcases hempty hlt hc with h | ⟨h, i, hi, hi0⟩
+      · exact h
+      · subst h
+        have e : BState.lineIndent { s with line := s.line } s.line = .ok i := hi
+        rw [e] at *
+        simp_all
+        omega
+    · subst_vars
+      exact ⟨frame_line_tight s s.lineMax s.tight, by simp; omega, fun _ _ => by simp,
+        fun _ _ => by simp; omega⟩
+    · have hchain := ‹runChain _ _ _ _ = _›
+      have hafter := ‹afterChain _ _ _ = _›
+      have hind := ‹BState.lineIndent _ _ = _›
+      have hcond : _ ∧ _ := ‹_›
+      obtain ⟨h13, hlt3, hle3⟩ := tok_iter hr (s1 := { s with line := l' }) rfl (by simp; omega)
+        ⟨_, hind, by omega⟩ hchain hafter
+      exact TokPost.glue (frame_line_tight s l' s.tight) hs1 h13 hlt3 hle3
+        (frame_line_tight _ _ (!he)) (by simp) (fun _ => by simp; omega) (ih _ _ _ h)
+    · have hchain := ‹runChain _ _ _ _ = _›
+      have hafter := ‹afterChain _ _ _ = _›
+      have hind := ‹BState.lineIndent _ _ = _›
+      obtain ⟨h13, hlt3, hle3⟩ := tok_iter hr (s1 := { s with line := l' }) rfl (by simp; omega)
+        ⟨_, hind, by omega⟩ hchain hafter
+      exact TokPost.glue (frame_line_tight s l' s.tight) hs1 h13 hlt3 hle3
+        (frame_line_tight _ _ (!he)) (by simp) (fun h => by simpa using h) (ih _ _ _ h)
+
+theorem runRule_spec {cfg : Cfg} {tok : Tok} {test : Test} (hk : TokSpec tok) (ht : TestPure test)
+    (fuel : Nat) : RunSpec (runRule cfg tok test fuel) := by
+  constructor
+  · intro r s s' h
+    cases r <;> simp only [runRule] at h
+    · exact real_false_same_code h
+    · exact real_false_same_fence h
+    · exact real_false_same_blockquote h
+    · exact real_false_same_hr h
+    · exact real_false_same_list h
+    · exact real_false_same_reference ht h
+    · exact real_false_same_heading h
+    · exact real_false_same_lheading ht h
+    · exact absurd (real_true_paragraph h) (by simp)
+  · intro r s s' h hl hi
+    cases r <;> simp only [runRule] at h
+    · exact (code_advanced h hl).weaken
+    · exact (fence_advanced h hl).weaken
+    · exact blockquote_advanced hk ht h hl hi
+    · exact (hr_advanced h hl).weaken
+    · exact list_advanced hk ht h hl
+    · exact reference_advanced ht h hl
+    · exact (heading_advanced h hl).weaken
+    · exact (lheading_advanced ht h hl).weaken
+    · exact (paragraph_advanced ht h hl).weaken
+
+theorem TokSpec.of_post {tok : Tok} (h : ∀ s s', tok s = .ok s' → TokPost s s') : TokSpec tok :=
+  ⟨fun s s' e => (h s s' e).frame, fun s s' e => (h s s' e).mono, fun s s' e => (h s s' e).upper,
+   fun s s' e => (h s s' e).strict⟩
+
+/-- **the tokenizer, for every fuel** -/
+theorem tokenize_spec (cfg : Cfg) :
+    ∀ (fuel : Nat) (s s' : BState), tokenize cfg fuel s = .ok s' → TokPost s s' := by
+  intro fuel
+  induction fuel with
+  | zero => intro s s' h; simp [tokenize, engine] at h
+  | succ f ih =>
+    intro s s' h
+    simp only [tokenize, engine] at h
+    exact tokLoop_spec (runRule_spec (TokSpec.of_post ih) (testRules_pure cfg f) _) _ _ _ _ h
+
+theorem tokenize_tokSpec (cfg : Cfg) (fuel : Nat) : TokSpec (tokenize cfg fuel) :=
+  TokSpec.of_post (tokenize_spec cfg fuel)
+
+/-- `tokenize_progress`: the tokenizer never moves `line` backwards, moves it strictly forward when it
+    starts on a blank line or on a line at a non-negative indent, ends with `line ≤ line_max` (on a
+    table that satisfies the invariant), and hands back the frame (`src`, the offset table, `line_max`,
+    `blk_indent`, `list_indent`, `level`, the kind of the current node) as it found it. -/
+theorem tokenize_progress {cfg : Cfg} {fuel : Nat} {s s' : BState} (h : tokenize cfg fuel s = .ok s') :
+    s.line ≤ s'.line ∧ (TableOk s → s.line ≤ s.lineMax → s'.line ≤ s.lineMax) ∧
+    (s.line < s.lineMax → (s.isEmpty s.line = true ∨ IndentOk s) → s.line < s'.line) ∧ Frame s s' :=
+  have := tokenize_spec cfg fuel s s' h
+  ⟨this.mono, this.upper, this.strict, this.frame⟩
+
+/-- a rule exactly as the tokenizer at budget `fuel + 1` runs it (`ruleAt`): whenever it answers
+    `true` at a line the tokenizer would try it on, `line` has moved strictly forward — the
+    `assert!(state.line > prev_line)` of `BlockParser::tokenize` cannot fire — and not beyond
+    `line_max`; when it answers `false` the state is untouched. -/
+theorem ruleAt_progress {cfg : Cfg} {fuel : Nat} {r : RuleId} {s s' : BState}
+    (h : ruleAt cfg fuel r s false = .ok (true, s')) (hl : s.line < s.lineMax) (hi : IndentOk s) :
+    s.line < s'.line ∧ (TableOk s → s'.line ≤ s.lineMax) ∧ Frame s s' :=
+  have := (runRule_spec (tokenize_tokSpec cfg fuel) (testRules_pure cfg fuel) (fuel + 1)).advanced r s s' h hl hi
+  ⟨this.lt, this.le, this.frame⟩
+
+theorem ruleAt_false_same {cfg : Cfg} {fuel : Nat} {r : RuleId} {s s' : BState}
+    (h : ruleAt cfg fuel r s false = .ok (false, s')) : s' = s :=
+  (runRule_spec (tokenize_tokSpec cfg fuel) (testRules_pure cfg fuel) (fuel + 1)).false_same r s s' h
+
+/-! ### the nine `block_rule_progress_<rule>`
+
+  `.ok (true, s')` in real mode at a line below `line_max` ⇒ `s.line < s'.line ∧ s'.line ≤ s.lineMax`.
+  The container rules and the three paragraph-like rules are parameterised by the call-backs; their
+  hypotheses are discharged by `tokenize_tokSpec` / `testRules_pure` (see `ruleAt_progress`).  The
+  block-quote rule needs the indent of its first line to be non-negative (the tokenizer breaks
+  before running any rule otherwise); the upper bound of the container rules and of the reference
+  rule needs the table invariant `TableOk` (true of `BlockState::new`: `tableOk_fresh`, and kept by the
+  containers' rewriting). -/
+
+theorem block_rule_progress_hr {s s' : BState} (h : hrRule s false = .ok (true, s'))
+    (hl : s.line < s.lineMax) : s.line < s'.line ∧ s'.line ≤ s.lineMax :=
+  ⟨(hr_advanced h hl).lt, (hr_advanced h hl).le⟩
+
+theorem block_rule_progress_heading {s s' : BState} (h : headingRule s false = .ok (true, s'))
+    (hl : s.line < s.lineMax) : s.line < s'.line ∧ s'.line ≤ s.lineMax :=
+  ⟨(heading_advanced h hl).lt, (heading_advanced h hl).le⟩
+
+theorem block_rule_progress_code {s s' : BState} (h : codeRule s false = .ok (true, s'))
+    (hl : s.line < s.lineMax) : s.line < s'.line ∧ s'.line ≤ s.lineMax :=
+  ⟨(code_advanced h hl).lt, (code_advanced h hl).le⟩
+
+theorem block_rule_progress_fence {s s' : BState} (h : fenceRule s false = .ok (true, s'))
+    (hl : s.line < s.lineMax) : s.line < s'.line ∧ s'.line ≤ s.lineMax :=
+  ⟨(fence_advanced h hl).lt, (fence_advanced h hl).le⟩
+
+theorem block_rule_progress_paragraph {test : Test} (ht : TestPure test) {fuel : Nat} {s s' : BState}
+    (h : paragraphRule test fuel s false = .ok (true, s')) (hl : s.line < s.lineMax) :
+    s.line < s'.line ∧ s'.line ≤ s.lineMax :=
+  ⟨(paragraph_advanced ht h hl).lt, (paragraph_advanced ht h hl).le⟩
+
+theorem block_rule_progress_lheading {test : Test} (ht : TestPure test) {fuel : Nat} {s s' : BState}
+    (h : lheadingRule test fuel s false = .ok (true, s')) (hl : s.line < s.lineMax) :
+    s.line < s'.line ∧ s'.line ≤ s.lineMax :=
+  ⟨(lheading_advanced ht h hl).lt, (lheading_advanced ht h hl).le⟩
+
+theorem block_rule_progress_reference {cfg : Cfg} {test : Test} (ht : TestPure test) {fuel : Nat}
+    {s s' : BState} (h : referenceRule cfg test fuel s false = .ok (true, s'))
+    (hl : s.line < s.lineMax) (hT : TableOk s) : s.line < s'.line ∧ s'.line ≤ s.lineMax :=
+  ⟨(reference_advanced ht h hl).lt, (reference_advanced ht h hl).le hT⟩
+
+theorem block_rule_progress_blockquote {tok : Tok} {test : Test} (hk : TokSpec tok) (ht : TestPure test)
+    {fuel : Nat} {s s' : BState} (h : blockquoteRule tok test fuel s false = .ok (true, s'))
+    (hl : s.line < s.lineMax) (hi : IndentOk s) (hT : TableOk s) :
+    s.line < s'.line ∧ s'.line ≤ s.lineMax :=
+  ⟨(blockquote_advanced hk ht h hl hi).lt, (blockquote_advanced hk ht h hl hi).le hT⟩
+
+theorem block_rule_progress_list {tok : Tok} {test : Test} (hk : TokSpec tok) (ht : TestPure test)
+    {fuel : Nat} {s s' : BState} (h : listRule tok test fuel s false = .ok (true, s'))
+    (hl : s.line < s.lineMax) (hT : TableOk s) : s.line < s'.line ∧ s'.line ≤ s.lineMax :=
+  ⟨(list_advanced hk ht h hl).lt, (list_advanced hk ht h hl).le hT⟩
 
 end MdIt.Block
